@@ -281,7 +281,8 @@ pub fn random(args: &[String]) -> i32 {
     let base = util::seed();
     let mut w = util::open_out(args);
     let mut sw = util::opt(args, "--scripts").map(|p| std::fs::File::create(p).expect("create --scripts"));
-    let mut id: i64 = 0;
+    let mut id: i64 = util::opt_usize(args, "--id-base", 0) as i64;
+    let id0 = id;
     let mut dropped = 0usize;
     for run in 0..runs {
         let seed = base.wrapping_mul(1_000_003).wrapping_add(run as u64);
@@ -322,6 +323,6 @@ pub fn random(args: &[String]) -> i32 {
         }
     }
     w.flush().unwrap();
-    eprintln!("records={id} dropped={dropped}");
+    eprintln!("records={} dropped={dropped}", id - id0);
     0
 }
